@@ -16,6 +16,10 @@ Layout used by the reference builder (offset: field):
 The builder is validated on the 46 frames captured in the repository tests (parse with the reference
 walker, rebuild, compare; field values compared with the kaitai parser's).
 
+Domain: the wake-up call types 0x02 / 0x0C are enumerated only together with the wake-up slot type (a wake-up
+call announced around a DMR burst gives contradictory indications: the library raises the same error on both
+paths, the payload does not "parse as the indicated kind"); the filler byte 58 is enumerated over {00,01,ef,ff}.
+
 Payloads "parse as the indicated burst kind": captured 33-byte bursts per slot type, their voice bits
 replaced by seeded bits (voice), and their colour code rewritten by the harness (slot type Golay(20,8) /
 EMB QR(16,7) codewords from mc.oracle.gf2) so that header and payload colour agree. Preconditions are
